@@ -112,11 +112,30 @@ Fresh(td, how, kind) ==
   IN P(Pre(td) \o <<SInfer("b", e), Pr(<<A(td), B(td)>>)>> \o Upd(td, A(td), kind) \o <<Pr(<<A(td), B(td)>>)>>
          \o Upd(td, B(td), "inplace") \o <<Pr(<<A(td), B(td)>>)>>, <<>>)
 
+\* 11b. fresh containers whatever the operands are (empty or not, variables or literals, in a function): the result
+\* is then grown and changed in place, the operands are changed, and every name is printed after every step
+FreshOps ==
+  LET TN == TArr(T_num)
+      a == EVar("a", TN)   e == EVar("e", TN)   b == EVar("b", TN)   c == EVar("c", TN)   p == EVar("p", TN)
+      app == FuncDef("app", <<Param("p", TN)>>, <<>>, TN, <<SRetV(EBin("+", p, EArr(<<Num(1)>>)), TN)>>)
+      pre == FuncDef("pre", <<Param("p", TN)>>, <<>>, TN, <<SRetV(EBin("+", EArr(<<Num(1)>>), p), TN)>>)
+      cut == FuncDef("cut", <<Param("p", TN)>>, <<>>, TN, <<SRetV(ESlice(p, <<>>, <<>>), TN)>>)
+      Obs == Pr(<<a, e, b, c>>)
+      Results == { EBin("+", e, a), EBin("+", a, e), EBin("+", e, e), EBin("+", e, EArr(<<Num(1)>>)), EBin("+", EArr(<<Num(1)>>), e),
+                   EBin("+", e, EArr(<<>>)), EBin("+", a, EArr(<<>>)), EBin("+", EArr(<<>>), a),
+                   ESlice(e, <<>>, <<>>), ESlice(a, <<Num(0)>>, <<Num(0)>>), ESlice(a, <<Num(2)>>, <<>>), ESlice(a, <<Num(0)>>, <<Num(2)>>),
+                   EBin("*", a, Num(1)), EBin("*", a, Num(0)), EBin("*", e, Num(3)),
+                   ECallU("app", FSig(app), <<e>>), ECallU("app", FSig(app), <<a>>), ECallU("pre", FSig(pre), <<e>>), ECallU("cut", FSig(cut), <<a>>), ECallU("cut", FSig(cut), <<e>>) }
+  IN { P(<<SInfer("a", EArr(<<Num(1), Num(2)>>)), SDecl("e", TN), SInfer("b", r), SInfer("c", r), Obs,
+           SAsg(b, EBin("+", b, EArr(<<Num(5)>>))), SAsg(EIdx(b, Num(0)), Num(9)), Obs,
+           SAsg(e, EBin("+", e, EArr(<<Num(6)>>))), SAsg(EIdx(a, Num(1)), Num(8)), Obs,
+           SAsg(c, EBin("+", c, EArr(<<Num(7)>>))), SAsg(EIdx(c, EUn("-", Num(1))), Num(4)), Obs>>, <<app, pre, cut>>) : r \in Results }
+
 \* 12. err and errmsg are ordinary bool / string variables that conversions update
 ErrV == EVar("err", T_bool)
 ErrM == EVar("errmsg", T_str)
 S2N(cp) == SInfer("n", ECallB("str2num", <<EStr(cp)>>))
-ErrProgs ==
+ErrProgsOf(EV, EM, fs) ==
   LET b == EVar("b", T_bool)
       s == EVar("s", T_str)
       n == EVar("n", T_num)
@@ -128,20 +147,30 @@ ErrProgs ==
       ObsE == Pr(<<ErrV, ErrM, n>>)
       Conv2(first, second, obs) == <<SInfer("n", Num(5))>> \o first \o <<ObsE, obs>> \o second \o <<ObsE, obs>>
   IN { \* b := err before / after a failure
-       P(<<SInfer("b", ErrV), SInfer("s", ErrM)>> \o Conv2(Fail, Good, Pr(<<b, s>>)), <<>>),
-       P(<<SInfer("n", Num(5))>> \o Fail \o <<SInfer("b", ErrV), SInfer("s", ErrM)>> \o Good \o <<ObsE, Pr(<<b, s>>)>>, <<>>),
+       P(<<SInfer("b", EV), SInfer("s", EM)>> \o Conv2(Fail, Good, Pr(<<b, s>>)), fs),
+       P(<<SInfer("n", Num(5))>> \o Fail \o <<SInfer("b", EV), SInfer("s", EM)>> \o Good \o <<ObsE, Pr(<<b, s>>)>>, fs),
        \* b = err (assignment, not declaration)
-       P(<<SInfer("b", EBool(TRUE)), SInfer("s", EStr(<<122>>)), SAsg(b, ErrV), SAsg(s, ErrM)>> \o Conv2(Fail, Good, Pr(<<b, s>>)), <<>>),
+       P(<<SInfer("b", EBool(TRUE)), SInfer("s", EStr(<<122>>)), SAsg(b, EV), SAsg(s, EM)>> \o Conv2(Fail, Good, Pr(<<b, s>>)), fs),
        P(<<SInfer("b", EBool(FALSE)), SInfer("s", EStr(<<122>>)), SInfer("n", Num(5))>> \o Fail
-           \o <<SAsg(b, ErrV), SAsg(s, ErrM)>> \o Good \o <<ObsE, Pr(<<b, s>>)>>, <<>>),
+           \o <<SAsg(b, EV), SAsg(s, EM)>> \o Good \o <<ObsE, Pr(<<b, s>>)>>, fs),
        \* stored into an array element / a map value / an any
-       P(<<SInfer("arr", EArr(<<EBool(TRUE), EBool(TRUE)>>)), SAsg(EIdx(arr, Num(0)), ErrV)>> \o Conv2(Fail, Good, Pr(<<arr>>)), <<>>),
-       P(<<SInfer("arr", EArr(<<ErrV, ErrV>>))>> \o Conv2(Fail, Good, Pr(<<arr>>)), <<>>),
-       P(<<SInfer("mp", EMap(<<K_k>>, <<EStr(<<122>>)>>)), SAsg(EDot(mp, K_k), ErrM)>> \o Conv2(Fail, Good, Pr(<<mp>>)), <<>>),
-       P(<<SInfer("mp", EMap(<<K_k>>, <<ErrM>>))>> \o Conv2(Fail, Good, Pr(<<mp>>)), <<>>),
-       P(<<SDecl("x", T_any), SAsg(x, ErrV)>> \o Conv2(Fail, Good, Pr(<<x>>)), <<>>),
+       P(<<SInfer("arr", EArr(<<EBool(TRUE), EBool(TRUE)>>)), SAsg(EIdx(arr, Num(0)), EV)>> \o Conv2(Fail, Good, Pr(<<arr>>)), fs),
+       P(<<SInfer("arr", EArr(<<EV, EV>>))>> \o Conv2(Fail, Good, Pr(<<arr>>)), fs),
+       P(<<SInfer("mp", EMap(<<K_k>>, <<EStr(<<122>>)>>)), SAsg(EDot(mp, K_k), EM)>> \o Conv2(Fail, Good, Pr(<<mp>>)), fs),
+       P(<<SInfer("mp", EMap(<<K_k>>, <<EM>>))>> \o Conv2(Fail, Good, Pr(<<mp>>)), fs),
+       P(<<SDecl("x", T_any), SAsg(x, EV)>> \o Conv2(Fail, Good, Pr(<<x>>)), fs),
        \* the program sets err itself; a later success resets it
-       P(<<SAsg(ErrV, EBool(TRUE)), SAsg(ErrM, EStr(<<109>>)), SInfer("n", Num(5)), ObsE>> \o Good \o <<ObsE>> \o Fail \o <<ObsE>>, <<>>) }
+       P(<<SAsg(ErrV, EBool(TRUE)), SAsg(ErrM, EStr(<<109>>)), SInfer("n", Num(5)), ObsE>> \o Good \o <<ObsE>> \o Fail \o <<ObsE>>, fs) }
+
+\* ... also when err / errmsg reach the variable through the return value of a function or through a parameter
+GErr == FuncDef("gerr", <<>>, <<>>, T_bool, <<SRetV(ErrV, T_bool)>>)
+GMsg == FuncDef("gmsg", <<>>, <<>>, T_str, <<SRetV(ErrM, T_str)>>)
+IdB == FuncDef("idb", <<Param("p", T_bool)>>, <<>>, T_bool, <<SRetV(EVar("p", T_bool), T_bool)>>)
+IdS == FuncDef("ids", <<Param("p", T_str)>>, <<>>, T_str, <<SRetV(EVar("p", T_str), T_str)>>)
+ErrProgs == ErrProgsOf(ErrV, ErrM, <<>>)
+            \cup ErrProgsOf(ECallU("gerr", FSig(GErr), <<>>), ECallU("gmsg", FSig(GMsg), <<>>), <<GErr, GMsg>>)
+            \cup ErrProgsOf(ECallU("idb", FSig(IdB), <<ErrV>>), ECallU("ids", FSig(IdS), <<ErrM>>), <<IdB, IdS>>)
+            \cup ErrProgsOf(EGrp(ECallU("gerr", FSig(GErr), <<>>)), EGrp(ECallU("gmsg", FSig(GMsg), <<>>)), <<GErr, GMsg>>)
 
 \* 13. repetition deep-copies composites also when they are held in an any
 RepAnyProgs ==
@@ -176,7 +205,7 @@ Progs ==
   \cup UNION {{ByAny(td, kd), ByAnyElem(td, kd)} : td \in TDs \ {td \in TDs : td.ty = T_any}, kd \in {"assign"}}
   \cup UNION {{ByAny(td, "inplace"), ByAnyElem(td, "inplace")} : td \in Comp}
   \cup UNION {{Fresh(td, how, kd) : how \in {"slice", "slice1", "concat", "rep"}, kd \in {"assign", "inplace"}} : td \in Arrs}
-  \cup ErrProgs \cup RepAnyProgs
+  \cup ErrProgs \cup RepAnyProgs \cup FreshOps
 
 FamCases == {MkCase("FamAlias", IF p \in ErrProgs THEN "err" ELSE "alias", p) : p \in Progs}
 FamInit == InitWith(FamCases)
